@@ -50,7 +50,7 @@ UTs(n) == Tuples(ValsFor(n), NPairs(n)) \cup (IF n = 4 THEN Tuples(Vals4b, NPair
 
 ExpCase(n, ut, lk) ==
   [kind |-> "hier",
-   inp |-> [src |-> "expmat", dk |-> MatOf(n, ut), qd |-> 4, pts |-> <<>>, pd |-> 1,
+   inp |-> [src |-> "expmat", dk |-> MatOf(n, ut), qd |-> 4, pts |-> <<>>, pd |-> 1, off |-> 0,
             meth |-> [name |-> "none", en |-> 1, ed |-> 1, c |-> 0, d |-> 0, dd |-> 1],
             link |-> lk, f32 |-> ((HashSeq(ut) \div 7) % 6 = 0),
             crits |-> Crits(n, [h \in 1..4 |-> Dist(h - 1, 4)], 4)]]
@@ -66,7 +66,7 @@ Eps == { [name |-> "gauss", en |-> 1, ed |-> 2, c |-> 0, d |-> 0, dd |-> 1],    
 PtsKey(s) == HashSeq([i \in 1..Len(s) |-> PKey(s[i])])
 PtsCase(s, m, lk) ==
   [kind |-> "hier",
-   inp |-> [src |-> "pts", dk |-> <<>>, qd |-> 1, pts |-> s, pd |-> 1, meth |-> m,
+   inp |-> [src |-> "pts", dk |-> <<>>, qd |-> 1, pts |-> s, pd |-> 1, off |-> (PtsKey(s) \div 5) % 4, meth |-> m,
             link |-> lk, f32 |-> ((PtsKey(s) \div 7) % 6 = 0),
             crits |-> Crits(Len(s), [h \in 1..5 |-> Dist(<<0, 1, 2, 4, 9>>[h], m.en)], m.en)]]
 KeepPts(s, m, lk) == (PtsKey(s) + m.en + LinkNo(lk)) % (4 * Stride) = 0
@@ -86,7 +86,7 @@ AllLinks == <<"single", "complete", "average", "weighted", "ward", "centroid", "
 SimCase(s, pd, m, lk) ==
   LET q == SimQ(m, pd) IN
   [kind |-> "hier",
-   inp |-> [src |-> "pts", dk |-> <<>>, qd |-> 1, pts |-> s, pd |-> pd, meth |-> m,
+   inp |-> [src |-> "pts", dk |-> <<>>, qd |-> 1, pts |-> s, pd |-> pd, off |-> 0, meth |-> m,
             link |-> lk, f32 |-> ((PtsKey(s) \div 7) % 6 = 0),
             crits |-> Crits(Len(s), <<LnRat(0, q), LnRat(q \div 4, q), LnRat(q \div 2, q), LnRat(q - 1, q)>>, 1)]]
 
